@@ -114,6 +114,8 @@ type MyInt_ID int
 type Bytes_ID []byte
 type S_ID struct{ X int }
 type Iface_ID interface{ M() }
+type NamedSlice_ID []int
+type NamedMap_ID map[string]int
 
 func (*S_ID) M() {}
 `
@@ -164,9 +166,11 @@ func asgFamily() []*pg.Program {
 			add(fmt.Sprintf("mapval elem=%s param=%s", e, p), fmt.Sprintf("cff.Map(func(k string, v %s) {}, map[string]%s{})", p, e), assignable(e, p))
 		}
 	}
-	for i := range ps {
-		ps[i].Raw = strings.ReplaceAll(ps[i].Raw, "_ID", "_ID")
-	}
+	// named collection types: element types are those of the underlying type
+	add("named-slice elem=int param=int", "cff.Slice(func(i int, v int) {}, NamedSlice_ID{})", true)
+	add("named-slice elem=int param=string", "cff.Slice(func(i int, v string) {}, NamedSlice_ID{})", false)
+	add("named-map key=string val=int", "cff.Map(func(k string, v int) {}, NamedMap_ID{})", true)
+	add("named-map key=string val=int param=(int,int)", "cff.Map(func(k int, v int) {}, NamedMap_ID{})", false)
 	return ps
 }
 
